@@ -126,36 +126,9 @@ theorem keys_plainOf {m : List (Name × Val)} (h : noIAB m = true) : (plainOf m)
 def envR (P : List (Name × Rat)) (names : List Name) (xs : List Rat) (t : Rat) : Env :=
   P.reverse ++ ((names.zip xs).reverse ++ [("time", t)])
 
-/-- facts about names used for all three start environments -/
-structure EnvCtx (c : Content) (names : List Name) (xs : List Rat) (P : List (Name × Rat)) : Prop where
-  ok : Ok c
-  names_eq : names = omKeys c.vars
-  len : names.length = xs.length
-  pkeys : P.map (·.1) = omKeys c.pars
-
-theorem envR_lookup_par {c names xs P} (h : EnvCtx c names xs P) (t : Rat) {a : Name}
-    (ha : a ∈ omKeys c.pars) : (envR P names xs t).lookup a = P.lookup a := by
-  have hn := h.ok.names
-  unfold envR
-  rw [lookup_append_left (by rw [keys_reverse, h.pkeys]; exact ha),
-    lookup_reverse_nodup _ _ (by rw [h.pkeys]; exact hn.pNd)]
-
-theorem envR_lookup_notpar {c names xs P} (h : EnvCtx c names xs P) (t : Rat) {a : Name}
-    (ha : a ∉ omKeys c.pars) :
-    (envR P names xs t).lookup a = ((names.zip xs).reverse ++ [("time", t)]).lookup a := by
-  unfold envR
-  rw [lookup_append_right (by rw [keys_reverse, h.pkeys]; exact ha)]
-
-theorem envR_lookup_none {c names xs P} (h : EnvCtx c names xs P) (t : Rat) {a : Name}
-    (hp : a ∉ omKeys c.pars) (hv : a ∉ omKeys c.vars) (ht : a ≠ "time") :
-    (envR P names xs t).lookup a = none := by
-  rw [envR_lookup_notpar h t hp,
-    lookup_append_right (by rw [keys_reverse, keys_zip h.len, h.names_eq]; exact hv)]
-  simp [lookup_cons_eq, ht]
-
 /-! ### the generated program, explicitly -/
 
-theorem genModel_ok {c : Content} (hok : Ok c) {L : Lang} (hL : L ≠ .jl) {cache : Cache}
+theorem genModel_ok {c : Content} (hok : OkV c) {L : Lang} (hL : L ≠ .jl) {cache : Cache}
     (hcc : createCache c = .ok cache) (hinit : omKeys cache.init = omKeys c.vars) :
     genModel [] c L [] = .ok
       { lang := L
@@ -235,39 +208,27 @@ theorem genModel_raises (bad : List Name) (c : Content) (L : Lang) {cache : Cach
 
 /-! ### main theorem -/
 
-theorem equiv_main (c : Content) (L : Lang) (t : Rat) (xs : List Rat)
-    (hL : L ≠ .jl) (hok : Ok c) (hxs : xs.length = c.vars.length) :
+/-- second half of the equivalence: given that the run environment evaluates all emitted definitions
+    (`herun`), that `_get_args`' dynamic pass succeeds (`hedyn`) and that the two environments have the same
+    lookups (`hfull`), the generated program and `Model.__call__` return the same list -/
+theorem equiv_tail (c : Content) (L : Lang) (t : Rat) (xs : List Rat)
+    (hL : L ≠ .jl) (hok : OkV c) (hxs : xs.length = c.vars.length)
+    {cache : Cache} (hcc : createCache c = .ok cache)
+    {order dy apn' : List Name} {dependent : Env} {stoich : List (Name × List (Name × Rat))}
+    {dst : List (Name × List (Name × Fn))} {init extra : List (Name × Rat)}
+    (hadd : addRxns apn' dependent c.allStoich ([], []) = .ok (stoich, dst))
+    (hinitk : init.map (·.1) = omKeys c.vars)
+    (hcache : cache = Cache.mk order (omKeys c.vars) dy (plainOf c.pars)
+                (omUnion (plainOf c.pars) extra) stoich dst init)
+    (hdy_kind : ∀ k ∈ dy, k ∈ omKeys c.derived ∨ k ∈ omKeys c.rxns)
+    {erun edyn : Env}
+    (herun : evalSeq (defsOf c order) (envR (plainOf c.pars) (omKeys c.vars) xs t) = .ok erun)
+    (hedyn : evalSeq (defsOf c dy) (("time", t) :: (([] : Env).reverse ++ ((omKeys c.vars).zip xs).reverse
+              ++ (omUnion (plainOf c.pars) extra).reverse)) = .ok edyn)
+    (hfull : ∀ a, erun.lookup a = edyn.lookup a) :
     genRun [] c L [] t xs [] = callRhs c t xs := by
-  cases hcc : createCache c with
-  | error e => simp [genRun, genModel, callRhs, hcc, bind, Except.bind]
-  | ok cache =>
-    obtain ⟨order, dependent, st, dy, apn, stoich, dst, init, extra, hsort, hE0, hcl, hadd, hinit, hextra,
-      hcache⟩ := createCache_ok hcc
     have hn := hok.names
-    have hPk : (plainOf c.pars).map (·.1) = omKeys c.pars := keys_plainOf hok.iaP
-    have hVk : (plainOf c.vars).map (·.1) = omKeys c.vars := keys_plainOf hok.iaV
     have hlen : (omKeys c.vars).length = xs.length := by simp [omKeys, hxs]
-    have hctx : EnvCtx c (omKeys c.vars) xs (plainOf c.pars) := ⟨hok, rfl, hlen, hPk⟩
-    obtain ⟨hond, homem⟩ := order_facts hok hsort
-    have hokind : ∀ k ∈ order, k ∈ omKeys c.derived ∨ k ∈ omKeys c.rxns := fun k hk => (homem k).mp hk
-    have hdk : (defsOf c order).map (·.1) = order := (mapM_defOf hok hokind).2
-    -- names in the order are neither parameters, variables nor `time`
-    have hord_np : ∀ k ∈ order, k ∉ omKeys c.pars := fun k hk hp =>
-      (hokind k hk).elim (hn.pd k hp) (hn.pr k hp)
-    have hord_nv : ∀ k ∈ order, k ∉ omKeys c.vars := fun k hk hv =>
-      (hokind k hk).elim (hn.vd k hv) (hn.vr k hv)
-    have hord_nt : ∀ k ∈ order, k ≠ "time" := fun k hk ht =>
-      (hokind k hk).elim (fun h => hn.time_d (ht ▸ h)) (fun h => hn.time_r (ht ▸ h))
-    -- the time-zero pass as sequential evaluation
-    rw [evalInOrder_defs hok c.toSort (toSort_lookup hok) hokind, hok.data] at hE0
-    -- classification
-    obtain ⟨apn', hcls, hap0, hap1, hap2⟩ := classify_spec c hok.surs order [] [] (omKeys c.pars) hond
-      (fun k hk => ⟨hord_np k hk, hord_nv k hk, hord_np k hk⟩)
-      (fun k hk => (hokind k hk).elim (fun h => Or.inr (lookup_some_of_mem_keys h)) Or.inl)
-    rw [hcls] at hcl
-    simp only [List.reverse_nil, List.nil_append, Prod.mk.injEq] at hcl
-    obtain ⟨hst, hdy, hapn⟩ := hcl
-    subst hapn
     -- numeric stoichiometry
     have hall : c.allStoich = c.rxns.map fun kv => (kv.1, kv.2.stoich) := by
       simp [Content.allStoich, hok.surs]
@@ -297,121 +258,6 @@ theorem equiv_main (c : Content) (L : Lang) (t : Rat) (xs : List Rat)
       have := hok.eqs
       simp only [allVarsHaveEq, List.all_eq_true] at this
       rw [htabk]; simpa using this v hv
-    -- static values the cache keeps
-    have hstf : (st.filter fun k => !(omKeys c.vars).contains k) = st := by
-      apply List.filter_eq_self.mpr
-      intro k hk
-      have : k ∈ order := by rw [← hst] at hk; exact (List.mem_filter.mp hk).1
-      simpa using hord_nv k this
-    rw [hstf] at hextra
-    obtain ⟨hexk, hexl⟩ := mapM_getPairs hextra
-    obtain ⟨hinitk, _⟩ := mapM_getPairs hinit
-    -- ===== the run environment succeeds on all definitions
-    have hkeysB : ∀ a, (∃ v, (baseEnv (plainOf c.pars) (plainOf c.vars) [] 0).lookup a = some v) →
-        ∃ w, (envR (plainOf c.pars) (omKeys c.vars) xs t).lookup a = some w := by
-      intro a ⟨v, hv⟩
-      rw [lookup_isSome_iff]
-      have hm := lookup_some_mem_keys hv
-      simp only [baseEnv, List.reverse_nil, List.nil_append, List.map_cons, List.map_append, List.mem_cons,
-        List.mem_append, List.map_reverse, List.mem_reverse, hVk, hPk] at hm
-      simp only [envR, List.map_append, List.map_reverse, List.mem_append, List.mem_reverse, hPk,
-        keys_zip hlen, List.map_cons, List.map_nil, List.mem_singleton]
-      rcases hm with h | h | h
-      · exact Or.inr (Or.inr h)
-      · exact Or.inr (Or.inl h)
-      · exact Or.inl h
-    obtain ⟨erun, herun⟩ := evalSeq_ok_of_keys hE0 hkeysB
-    -- ===== static names agree between the run and the time-zero pass
-    have hdefs_static : ∀ kf ∈ defsOf c order, kf.1 ∈ apn' → ∀ a ∈ kf.2.args, a ∈ apn' := by
-      intro kf hkf hka a ha
-      obtain ⟨hko, hkd⟩ := defsOf_mem hkf
-      obtain ⟨hnr, d, hd, hargs⟩ := hap2 kf.1 hko hka
-      have : defOf c kf.1 = some d := by
-        simp [defOf, lookup_none_of_not_mem hnr, hd]
-      rw [this] at hkd
-      simp only [Option.some.injEq] at hkd
-      exact hargs a (hkd ▸ ha)
-    have hagree0 : ∀ a, a ∈ apn' → (envR (plainOf c.pars) (omKeys c.vars) xs t).lookup a
-        = (baseEnv (plainOf c.pars) (plainOf c.vars) [] 0).lookup a := by
-      intro a ha
-      rcases hap1 a ha with hp | ho
-      · rw [envR_lookup_par hctx t hp]
-        have hat : a ≠ "time" := fun h => hn.time_p (h ▸ hp)
-        have hav : a ∉ omKeys c.vars := fun hv => hn.vp a hv hp
-        simp only [baseEnv, List.reverse_nil, List.nil_append, lookup_cons_eq, hat, if_false]
-        rw [lookup_append_right (by rw [keys_reverse, hVk]; exact hav),
-          lookup_reverse_nodup _ _ (by rw [hPk]; exact hn.pNd)]
-      · rw [envR_lookup_none hctx t (hord_np a ho) (hord_nv a ho) (hord_nt a ho)]
-        simp only [baseEnv, List.reverse_nil, List.nil_append, lookup_cons_eq, hord_nt a ho, if_false]
-        rw [lookup_append_right (by rw [keys_reverse, hVk]; exact hord_nv a ho)]
-        exact (lookup_none_of_not_mem (by rw [keys_reverse, hPk]; exact hord_np a ho)).symm
-    have hstatic : ∀ a, a ∈ apn' → erun.lookup a = dependent.lookup a :=
-      evalSeq_agree_closed (fun a => a ∈ apn') herun hE0 hdefs_static hagree0
-    -- ===== the dynamic pass of `_get_args`
-    have hD0 : ∀ a, (∀ kf ∈ defsOf c order, apn'.contains kf.1 = true → kf.1 ≠ a) →
-        (envR (plainOf c.pars) (omKeys c.vars) xs t).lookup a
-          = (("time", t) :: (([] : Env).reverse ++ ((omKeys c.vars).zip xs).reverse
-              ++ (omUnion (plainOf c.pars) extra).reverse)).lookup a := by
-      intro a hnot
-      have hex_none : a ∉ omKeys c.pars → extra.lookup a = none := by
-        intro _
-        apply lookup_none_of_not_mem
-        rw [hexk, ← hst]
-        intro hm
-        obtain ⟨hao, hac⟩ := List.mem_filter.mp hm
-        have : a ∈ (defsOf c order).map (·.1) := by rw [hdk]; exact hao
-        obtain ⟨kf, hkf, hka⟩ := List.mem_map.mp this
-        exact hnot kf hkf (hka ▸ hac) hka
-      have hex_nd : ((omUnion (plainOf c.pars) extra).map (·.1)).Nodup :=
-        (keys_omUnion_nodup extra (plainOf c.pars) (by rw [hPk]; exact hn.pNd)).1
-      simp only [List.reverse_nil, List.nil_append, lookup_cons_eq]
-      by_cases hat : a = "time"
-      · subst hat
-        simp only [if_true]
-        rw [envR_lookup_notpar hctx t hn.time_p,
-          lookup_append_right (by rw [keys_reverse, keys_zip hlen]; exact hn.time_v)]
-        simp [lookup_cons_eq]
-      · simp only [hat, if_false]
-        by_cases hav : a ∈ omKeys c.vars
-        · rw [envR_lookup_notpar hctx t (hn.vp a hav),
-            lookup_append_left (by rw [keys_reverse, keys_zip hlen]; exact hav),
-            lookup_append_left (by rw [keys_reverse, keys_zip hlen]; exact hav)]
-        · rw [lookup_append_right (by rw [keys_reverse, keys_zip hlen]; exact hav),
-            lookup_reverse_nodup _ _ hex_nd,
-            lookup_omUnion _ _ _ (by rw [hexk, ← hst]; exact hond.sublist List.filter_sublist)]
-          by_cases hap : a ∈ omKeys c.pars
-          · have hne : extra.lookup a = none := by
-              apply lookup_none_of_not_mem
-              rw [hexk, ← hst]
-              intro hm
-              exact hord_np a (List.mem_filter.mp hm).1 hap
-            rw [envR_lookup_par hctx t hap, hne]
-          · rw [envR_lookup_none hctx t hap hav hat, hex_none hap]
-            exact (lookup_none_of_not_mem (by rw [hPk]; exact hap)).symm
-    have hD1 : ∀ kf ∈ defsOf c order, apn'.contains kf.1 = true →
-        (("time", t) :: (([] : Env).reverse ++ ((omKeys c.vars).zip xs).reverse
-              ++ (omUnion (plainOf c.pars) extra).reverse)).lookup kf.1 = erun.lookup kf.1 := by
-      intro kf hkf hs
-      obtain ⟨hko, _⟩ := defsOf_mem hkf
-      have hka : kf.1 ∈ apn' := by simpa using hs
-      have hkst : kf.1 ∈ st := by rw [← hst]; exact List.mem_filter.mpr ⟨hko, hs⟩
-      have hex_nd : ((omUnion (plainOf c.pars) extra).map (·.1)).Nodup :=
-        (keys_omUnion_nodup extra (plainOf c.pars) (by rw [hPk]; exact hn.pNd)).1
-      simp only [List.reverse_nil, List.nil_append, lookup_cons_eq, hord_nt _ hko, if_false]
-      rw [lookup_append_right (by rw [keys_reverse, keys_zip hlen]; exact hord_nv _ hko),
-        lookup_reverse_nodup _ _ hex_nd,
-        lookup_omUnion _ _ _ (by rw [hexk, ← hst]; exact hond.sublist List.filter_sublist),
-        hexl _ hkst, hstatic _ hka]
-      cases dependent.lookup kf.1 with
-      | some v => rfl
-      | none => exact lookup_none_of_not_mem (by rw [hPk]; exact hord_np _ hko)
-    obtain ⟨edyn, hedyn, hfull⟩ := evalSeq_agree_sub (fun k => apn'.contains k) herun (by rw [hdk]; exact hond)
-      (fun kf hkf => by
-        obtain ⟨hko, _⟩ := defsOf_mem hkf
-        exact envR_lookup_none hctx t (hord_np _ hko) (hord_nv _ hko) (hord_nt _ hko))
-      hD0 hD1
-    have hfil := defsOf_filter c (fun k => !apn'.contains k) order
-    rw [← hfil, hdy] at hedyn
     -- ===== left-hand side
     have hcache_init : omKeys cache.init = omKeys c.vars := by rw [hcache]; exact hinitk
     obtain ⟨hunp, hretb⟩ := tmpl_facts hL
@@ -471,8 +317,6 @@ theorem equiv_main (c : Content) (L : Lang) (t : Rat) (xs : List Rat)
         cases (List.mapM (Env.get ((ss.map fun ks => (dName ks.1, ks.2)).reverse ++ erun)) ((omKeys c.vars).map dName)) with
         | error e => rfl
         | ok out => cases (templateOf L).sizedRet <;> simp [pure, Except.pure]
-    have hdy_kind : ∀ k ∈ dy, k ∈ omKeys c.derived ∨ k ∈ omKeys c.rxns := by
-      intro k hk; rw [← hdy] at hk; exact hokind k (List.mem_filter.mp hk).1
     have hRHS : callRhs c t xs = (match rowSums edyn tab with
         | .error e => .error e
         | .ok ss => (omKeys c.vars).mapM
@@ -522,5 +366,6 @@ theorem equiv_main (c : Content) (L : Lang) (t : Rat) (xs : List Rat)
       rw [mapM_get_ok_map dName (fun v => (ss.lookup v).getD 0) _ hL1,
         mapM_get_ok (fun v => (ss.lookup v).getD 0) _ hR1]
       cases (templateOf L).sizedRet <;> simp [Except.bind]
+
 
 end Mxl.C07
